@@ -28,6 +28,7 @@ class Norm:
         self.F = F
         self._bodies = {}
         self.handle_ptr_fields = {}
+        self.wrapper_fields = set()
         for hn, hp in F.handle_paths.items():
             adt = F.adts.get(hp)
             if adt and adt["kind"] == "Struct":
@@ -35,6 +36,8 @@ class Norm:
                     t = F.ty(f["ty"])
                     if t["k"] == "adt" and t["path"] == "core::ptr::non_null::NonNull":
                         self.handle_ptr_fields[hn] = f["name"]
+                    elif F.handle_name(f["ty"]) is not None:
+                        self.wrapper_fields.add(f["name"])  # e.g. UniqueArc's inner Arc
 
     def B(self, key):
         if key not in self._bodies:
@@ -79,7 +82,7 @@ class Norm:
                     continue
                 if name == (F.data_field[1] if F.data_field else None) and r[0] in ("stored", "arg", "sub_off", "opaque", "mk"):
                     r = ("dataplace", r, None)
-                elif name in self.handle_ptr_fields.values() or name in ("0", "p", "ptr"):
+                elif name in self.handle_ptr_fields.values() or name in self.wrapper_fields:
                     if r[0] == "mk":
                         r = r[2]
                     else:
